@@ -1228,13 +1228,25 @@ fn check(ctx: &Ctx) -> i32 {
     // the page's own document request (the page is its own initiator). Every spelling below is
     // evaluated by the public matcher on Request::new(url, url, "document") and must agree with
     // the flag url_cosmetic_resources reports (and with the presence of the misc generic selector).
-    const GH_PATTERNS: [&str; 9] = ["||example.com^", "||sub.example.com^", "|https://example.com/", "|https://", "example.com", "*", "", "/p?q", "||example.co.uk^"];
+    const GH_PATTERNS: [&str; 13] = [
+        "||example.com^", "||sub.example.com^", "|https://example.com/", "|https://", "example.com", "*", "", "/p?q", "||example.co.uk^",
+        // hosts that are written differently in the page URL and in its normalised form; an exact URL
+        "||m\u{fc}nchen.de^", "||stra\u{df}e.co.uk^", "|https://example.com/|", "||xn--mnchen-3ya.de^",
+    ];
     const GH_OPTIONS: [&str; 12] = [
         "generichide", "ghide", "generichide,domain=example.com", "generichide,domain=sub.example.com", "generichide,domain=~sub.example.com", "generichide,domain=example.com|example.co.uk",
         "generichide,1p", "generichide,3p", "generichide,document", "generichide,script", "generichide,domain=example.org", "generichide,~third-party,domain=~a.b.example.com",
     ];
     ctx.bound("generichide_spellings", GH_PATTERNS.len() * GH_OPTIONS.len());
-    let gh_pages = build_pages(true);
+    let mut gh_pages = build_pages(true);
+    // the same page under URL texts that normalisation changes (the lookup is about the page, not
+    // about the spelling of its address)
+    for spelled in ["https:/example.com/", "https:example.com/", " https://example.com/ ", "https://example.com:443/", "https://example.com/a/../", "https://m\u{fc}nchen.de:443/x"] {
+        if let Some(mut p) = make_page("https://example.com/") {
+            p.url = spelled.to_string();
+            gh_pages.push(p);
+        }
+    }
     ctx.par_range("generichide spellings", (GH_PATTERNS.len() * GH_OPTIONS.len()) as u64, 1, |i, l| {
         let g = format!("@@{}${}", GH_PATTERNS[i as usize % GH_PATTERNS.len()], GH_OPTIONS[i as usize / GH_PATTERNS.len()]);
         check_gh_spelling(&g, &gh_pages, l);
